@@ -483,10 +483,14 @@ def h_assert(site):
         if allok:
             return ok(site, 'subtraction guarded by a dominating `value > 0`-style test on the same value on every path')
     if kind == 'DivisionByZero' and occ:
-        if all(e['ops'][0][0] == 'const' and (e['ops'][0][2] or 0) != 0 for p, i, e in occ):
+        divisor = site.raw['desc'].rsplit('/', 1)[-1] if '/' in site.raw['desc'] else ''
+        if divisor.isdigit() and int(divisor) != 0:
             return ok(site, 'division by a non-zero literal')
-        # estimate_feed_capacity: check the call site
+        # estimate_feed_capacity: the divisor must be exactly (max_packet_size - remaining) / 2, and the call site must
+        # guarantee max_packet_size - remaining >= 2
         key = (site.owner, 'assert', 'DivisionByZero')
+        if divisor != 'Div(saturating_sub(get(self.config.max_packet_size),<usize>),2)':
+            return bad(site, 'division whose divisor (%s) is not the audited (max_packet_size - remaining) / 2' % divisor)
         good = False
         why = 'call site of estimate_feed_capacity is not dominated by put_u16 on the limited buffer'
         if site.owner == 'Foca::estimate_feed_capacity':
